@@ -293,6 +293,28 @@ def run(tier, seed, escalate=False):
                                           "files": [{"path": f, "obj": {k: so[k] for k in ("dims", "shape", "coords", "values")}}
                                                     for f, so in zip(files, singles)]}, **kw))
                         n_eval += 1
+            # a list whose entries are of DIFFERENT formats (no data_format given): each path is detected on its own and slice k is
+            # still the k-th path as given
+            with warnings.catch_warnings(), contextlib.redirect_stdout(io.StringIO()):
+                warnings.simplefilter("ignore")
+                loaded = [dnp.load(f, data_format="prospa") for f in files[:3]]
+                h5s = []
+                for k_, ob in enumerate(loaded):
+                    hp = os.path.join(work_m, "stored_%d.h5" % k_)
+                    dnp.save(ob, hp, overwrite=True); h5s.append(hp)
+                for mix in ([files[0], h5s[1]], [h5s[0], files[1], h5s[2]], [files[2], files[0], h5s[1]], [h5s[2], h5s[0]]):
+                    idx = [(files.index(p_) if p_ in files else h5s.index(p_)) for p_ in mix]
+                    n_eval += 1
+                    try:
+                        m = dnp.load(list(mix), coord=np.arange(len(mix)) * 2.0 + 1.0, dim="mixed")
+                        ok = list(m.dims)[-1] == "mixed" and m.shape[-1] == len(mix) and all(
+                            np.array_equal(np.asarray(m.values)[..., j], np.asarray(loaded[i_].values)) for j, i_ in enumerate(idx))
+                        err = None
+                    except Exception as e:  # noqa: BLE001
+                        ok, err = False, type(e).__name__
+                    if not ok:
+                        key = "C16:multi-path-load-mixed-formats"
+                        fails.append({"key": key, "clause": key, "ops": [{"kinds": ["h5" if p_.endswith(".h5") else "prospa" for p_ in mix], "error": err}]})
             outs, _ = run_model(mops)
             for o, i, op in zip(outs, impls, mops):
                 if "raise" in i or o.get("outcome") != "ok":
